@@ -336,6 +336,8 @@ pub fn run(ctx: &Ctx) -> Report {
         "ltt_offset_i32_min",
         "ltt_designation_length",
         "ltt_designation_char",
+        "leap_table_at_integer_extremes",
+        "leap_table_at_integer_extremes_workload",
     ];
     if let Err(e) = crate::mon::c03::self_tests() {
         rep.inconclusive.push(format!("model self-test failed: {}", e));
@@ -356,6 +358,38 @@ pub fn run(ctx: &Ctx) -> Report {
         if i % 17000 == 3 {
             l.sample(|| Json::obj().set("base_zone", z.describe()).set("perturbations", n));
         }
+    });
+    // leap-second tables at the i64 / i32 extremes (saturating arithmetic paths): exact spacing, one second short,
+    // equal times, inverted times, with the later record at i64::MAX, i64::MAX - 1 and near i64::MIN
+    run_cases(ctx, &mut rep, 6, 1, |l, _rng, _| {
+        let m = i64::MAX;
+        let sp = 2_419_199i64;
+        let mut tables: Vec<Vec<(i64, i32)>> = vec![];
+        for x1 in [m, m - 1, m - 2] {
+            for d in [sp, sp - 1, sp + 1, 1, 0, -1, sp / 2] {
+                for (c0, c1) in [(1, 2), (-1, -2), (1, 0), (-1, 0)] {
+                    tables.push(vec![(x1 - d, c0), (x1, c1)]);
+                    tables.push(vec![(0, 1), (x1 - d, if c0 > 0 { 2 } else { 0 }), (x1, if c0 > 0 { 3 } else { -1 })]);
+                }
+            }
+        }
+        for (a, b) in [(0i64, m), (0, m - sp), (m - sp, m), (1, m), (0, i64::MIN), (i64::MIN, 0), (i64::MIN, i64::MIN + sp), (0, sp), (0, sp - 1)] {
+            tables.push(vec![(a, 1), (b, 2)]);
+        }
+        for c in [i32::MAX, i32::MIN, i32::MAX - 1, i32::MIN + 1] {
+            tables.push(vec![(0, 1), (sp, c)]);
+            tables.push(vec![(0, c)]);
+            tables.push(vec![(0, 1), (sp, 2), (2 * sp, c)]);
+        }
+        let mut n = 0;
+        for t in tables {
+            let z = ZoneSpec { transitions: vec![], types: vec![TypeSpec::new(0, false, Some("UTC"))], leaps: LeapTable(t), rule: None };
+            judge(l, &z, "leap_table_at_integer_extremes", Some(E::InvalidLeapSecond));
+            n += 1;
+        }
+        l.class("leap_table_at_integer_extremes_workload");
+        l.op_n("TimeZone::new + TimeZoneRef::new", 2 * n);
+        l.distinct_enumerated += n;
     });
     // no local time type
     run_cases(ctx, &mut rep, 2, 4, |l, rng, i| {
